@@ -74,6 +74,15 @@ pub fn boundary() -> Vec<BigUint> {
   }
   v.sort();
   v.dedup();
+  // The same boundaries for the INTERNAL representation: implementations keep elements in
+  // Montgomery form x * 2^192 mod p, so limb-level mistakes show at values whose internal form
+  // is next to a limb / modulus boundary, i.e. at b * 2^-192 mod p for every boundary b above.
+  // (If the implementation is not Montgomery-based these are just more operands.)
+  let r_inv = invm(&(&one << 192)).unwrap();
+  let internal: Vec<BigUint> = v.iter().map(|b| mulm(b, &r_inv)).collect();
+  v.extend(internal);
+  v.sort();
+  v.dedup();
   v
 }
 
